@@ -250,5 +250,6 @@ int main(void) {
 		fflush(stdout);
 		wd_progress++; wd_busy = 0;
 	}
+	memset(H, 0, sizeof H);   // objects a script never released must be unreachable at exit (LeakSanitizer in the ASan tier)
 	return 0;
 }
